@@ -10,6 +10,8 @@ What is read from C.REPO/src (non-test, non-verif-hooks code only):
     — transitively, by unique function name — a function that does), and whether the storage-mode
     filter `apply_prompt_storage_mode(repo, &mut X.metadata.prompts)` (or the same `match` inline)
     runs on the object X that is serialised, before the serialisation
+    — or, second recognised shape, the filter applied to a local map that is then merged:
+    `apply_prompt_storage_mode(repo, &mut M); X.metadata.prompts.extend(M)` with nothing else entering X's prompts
   * the filter itself: `post_commit.rs: apply_prompt_storage_mode` must be a `match` on
     `effective_prompt_storage(..)` with arms Local / Notes / Default; each arm is classified as
     strip / redact / uploadThenStrip / keep
@@ -39,7 +41,15 @@ NON_WRITER_SERIALIZERS = {
     "_serialize_to_writer": "generic writer adaptor (no caller in src)",
     "remap_note_content_for_target_commit": "re-serialises an existing note text (input is a note); returned to the remap writers, which are rows of the table",
     "show_authorship": "commands/show.rs: prints the note to stdout (println!), writes nothing",
+    "note_carried_over_without_lines": "rebase_authorship.rs (74aa63f9): returns either an existing note's text "
+        "(remap_note_content_for_target_commit) or the serialised COMPUTED note of a rewritten commit; both callers "
+        "(rewrite_authorship_after_rebase_v2, rewrite_authorship_after_cherry_pick - rows of the table) call it only in the "
+        "else-branch of `if computed_note_has_payload`, where the computed note has no attestations and an EMPTY prompts map, "
+        "and what those writers hold is note-derived anyway (no working-log read reachable). Checked below: CLEAN_CALLERS_ONLY",
 }
+# non-writer serialisers whose text goes back to a writer: every call site must be inside a writer that is a row of the table
+# and from which no working-log read is reachable (a new caller on a working-log path breaks the tie instead of passing)
+CLEAN_CALLERS_ONLY = ["note_carried_over_without_lines"]
 # definitions of the low-level writers themselves (they take text, not prompts)
 PRIMITIVES = {"notes_add", "notes_add_batch", "notes_add_blob_batch", "save_stash_note"}
 
@@ -256,6 +266,28 @@ def extract():
         first_write = min(pos for _, pos in w["calls"])
         filt = [(m.start(), m.group(1)) for m in re.finditer(
             r"\b" + FILTER_FN + r"\s*\(\s*[A-Za-z_][A-Za-z0-9_]*\s*,\s*&mut\s+([A-Za-z_][A-Za-z0-9_]*)\s*\.\s*metadata\s*\.\s*prompts\s*\)", code[bs:be + 1])]
+        # second recognised shape: the records that come from the working log are collected in a LOCAL map M, the filter is
+        # applied to M, and M is then merged into the serialised object: `FILTER(repo, &mut M); X.metadata.prompts.extend(M)`.
+        # Conditions: nothing is put into M between the filter and the merge; X.metadata.prompts receives nothing else in
+        # this function (no other insert / extend / append / assignment); no message list is assigned or grown anywhere
+        # in the function (records already in X may only have their counters updated).
+        for m in re.finditer(r"\b" + FILTER_FN + r"\s*\(\s*[A-Za-z_][A-Za-z0-9_]*\s*,\s*&mut\s+([A-Za-z_][A-Za-z0-9_]*)\s*\)", body):
+            M = m.group(1)
+            mm = re.search(r"\b([A-Za-z_][A-Za-z0-9_]*)\s*\.\s*metadata\s*\.\s*prompts\s*\.\s*extend\s*\(\s*" + re.escape(M) + r"\s*\)", body[m.end():])
+            if not mm:
+                continue
+            X = mm.group(1)
+            between = body[m.end():m.end() + mm.start()]
+            if re.search(r"\b" + re.escape(M) + r"\s*\.\s*(insert|extend|append|entry)\b", between) or re.search(r"\b" + re.escape(M) + r"\s*=[^=]", between):
+                continue
+            others = [o for o in re.finditer(re.escape(X) + r"\s*\.\s*metadata\s*\.\s*prompts\s*(=[^=]|\.\s*(insert|extend|append|entry)\b)", body)
+                      if o.start() != m.end() + mm.start()]
+            if others:
+                continue
+            if re.search(r"\.\s*messages\s*(=[^=]|\.\s*(push|extend|append|insert)\b)", body):
+                continue
+            filt.append((m.end() + mm.end(), X))      # effective position: after the sanctioned merge
+        filt.sort()
         inline = re.search(r"match\s+[A-Za-z_][A-Za-z0-9_.()&: ]*\{[^}]*PromptStorageMode::Local", body) is not None
         if inline:
             raise ExtractError(f"{name}: inline PromptStorageMode match — the filter is expected to be the single function {FILTER_FN}")
@@ -285,6 +317,31 @@ def extract():
         if f[0] == "serialize_to_string": continue
         if f[0] not in NON_WRITER_SERIALIZERS:
             raise ExtractError(f"{p}: fn {f[0]} serialises an authorship log but is neither a note writer nor a known non-writer")
+    by_row = {(r["file"], r["name"]): r for r in rows}
+    for helper in CLEAN_CALLERS_ONLY:
+        if len(fn_index.get(helper, [])) > 1:
+            raise ExtractError(f"{helper}: defined more than once")
+        for path, code in files.items():
+            for m in re.finditer(r"(?<![A-Za-z0-9_])" + re.escape(helper) + r"\s*\(", code):
+                if re.search(r"\bfn\s+$", code[:m.start()]):
+                    continue  # the definition
+                f = innermost(per_file[path], m.start())
+                row = by_row.get((path, f[0])) if f else None
+                if row is None or row["reads_wl"] or helper in tainted:
+                    raise ExtractError(f"{path}: {helper} is called from {f[0] if f else 'outside any fn'}, which is not a note writer "
+                                       f"free of working-log reads (its NON_WRITER_SERIALIZERS reason no longer holds)")
+                # the call site's own guard: it sits in the no-payload branch of the writer
+                fbody_before = code[f[2]:m.start()]
+                guard = re.findall(r"let\s+computed_note_has_payload\s*=\s*!\s*([A-Za-z_][A-Za-z0-9_]*)\s*\.\s*attestations", fbody_before)
+                arg2 = re.match(r"\s*\(\s*[^,()]+,\s*&\s*([A-Za-z_][A-Za-z0-9_]*)\s*,", code[m.end() - 1:])
+                if not guard or not arg2 or arg2.group(1) != guard[-1]:
+                    raise ExtractError(f"{path}: {helper} call in {f[0]}: the note passed is not the one `computed_note_has_payload` was computed on")
+                if not re.search(r"let\s+computed_note_has_payload\s*=\s*!\s*([A-Za-z_][A-Za-z0-9_]*)\s*\.\s*attestations\s*\.\s*is_empty\s*\(\s*\)\s*"
+                                 r"\|\|\s*!\s*\1\s*\.\s*metadata\s*\.\s*prompts\s*\.\s*is_empty\s*\(\s*\)\s*;\s*"
+                                 r"let\s+[A-Za-z_][A-Za-z0-9_]*\s*=\s*if\s+computed_note_has_payload\s*\{", fbody_before) \
+                   or "} else {" not in fbody_before[fbody_before.rfind("computed_note_has_payload"):]:
+                    raise ExtractError(f"{path}: {helper} call in {f[0]} is not in the else-branch of `if computed_note_has_payload` "
+                                       f"(`!X.attestations.is_empty() || !X.metadata.prompts.is_empty()`)")
 
     # --- the filter
     pc = files.get(os.path.join("src", "authorship", "post_commit.rs"))
